@@ -1818,6 +1818,7 @@ void IGXMLScanner::resolveSchemaGrammar(const XMLCh* const loc, const XMLCh* con
         parser.setUserEntityHandler(fEntityHandler);
         parser.setUserErrorReporter(fErrorReporter);
         parser.setDisableDefaultEntityResolution(fDisableDefaultEntityResolution);
+        parser.setSecurityManager(fSecurityManager);
 
         //Normalize loc
         XMLBufBid nnSys(&fBufMgr);
@@ -2177,6 +2178,7 @@ Grammar* IGXMLScanner::loadXMLSchemaGrammar(const InputSource& src,
     parser.setUserEntityHandler(fEntityHandler);
     parser.setUserErrorReporter(fErrorReporter);
     parser.setDisableDefaultEntityResolution(fDisableDefaultEntityResolution);
+    parser.setSecurityManager(fSecurityManager);
 
     // Should just issue warning if the schema is not found
     bool flag = src.getIssueFatalErrorIfNotFound();
